@@ -41,6 +41,16 @@ def build_inputs(entry, rep, cond):
         store['mask'] = wrap(mask, 'mask') if rep == 'view' else mask
     if cond == 'invalid':
         store['mask'] = np.zeros((3, 3), dtype=bool)
+    if cond == 'emptymask':            # a mask array is supplied but selects nothing
+        store['mask'] = np.zeros(E.SHAPE, dtype=bool)
+    if entry == 'epsf':
+        from astropy.nddata import NDData, StdDevUncertainty
+        store['nddata_data'] = np.asarray(getattr(store['data'], 'value', store['data']), dtype=float).copy() if not isinstance(store['data'], np.ma.MaskedArray) else np.asarray(store['data'].filled(0.0))
+        store['nddata_unc'] = np.asarray(getattr(store['error'], 'value', store['error']), dtype=float).copy()
+        store['nddata_mask'] = None if store.get('mask') is None or store['mask'].shape != E.SHAPE else store['mask']
+        store['nddata'] = NDData(store['nddata_data'], uncertainty=StdDevUncertainty(store['nddata_unc']), mask=store['nddata_mask'])
+        st = Table(); st['x'] = [p[0] for p in E._positions()]; st['y'] = [p[1] for p in E._positions()]
+        store['stars_table'] = st
     store['segm'] = segm
     store['coverage_mask'] = None
     if entry == 'background2d' and cond == 'masked':
@@ -81,14 +91,17 @@ def build_inputs(entry, rep, cond):
 def snapshot(store):
     out = {}
     for k, v in store.items():
-        if isinstance(v, (bool, int, float, type(None))):
+        if isinstance(v, (bool, int, float, type(None))) or k == 'nddata':
             continue
         if hasattr(v, 'deblended_labels_inverse_map') and hasattr(v, 'data'):      # SegmentationImage
             out[k] = digest([np.asarray(v.data), sorted((int(a), [int(c) for c in b]) for a, b in v.deblended_labels_inverse_map.items())])
         elif hasattr(v, 'param_names'):
             out[k] = digest([[float(np.ravel(getattr(v, n).value)[0]) for n in v.param_names], [bool(getattr(v, n).fixed) for n in v.param_names]])
         else:
-            out[k] = digest(v)
+            try:
+                out[k] = digest(v)
+            except Exception:  # noqa
+                out[k] = repr(type(v))
     return out
 
 
@@ -109,7 +122,7 @@ def run_program(args):
 
 
 def run(ctx):
-    ctx.rule = ('programs = entry point x representation (ndarray, strided view of a larger array, MaskedArray, Quantity) x condition (clean, '
+    ctx.rule = ('programs = entry point x representation (ndarray, strided view of a larger array, MaskedArray, Quantity) x condition (clean, empty mask array, '
                 'NaN/inf, negative, masked, invalid argument); every program executed once per run; non-trivial = the call returned normally '
                 'on non-clean data or raised on an invalid argument')
     # the programs quantifier lives in TLA+: ask TLC for the set
